@@ -52,7 +52,11 @@ func (h *NTLMAuth) Authenticate(message *auth.NtlmRequest) (*auth.NtlmResponse, 
 	c := h.getContext(message.Session)
 	err := c.Authenticate(message.NtlmMessage, r)
 
-	if err != nil || r.Authenticated {
+	// keep the context only while the exchange is under way, i.e. after a challenge has
+	// been issued. Every authenticate attempt ends the exchange: a context that survives a
+	// failed attempt keeps its challenge and the response keys derived for the user named in
+	// that attempt, which would be reused for whoever a following attempt names
+	if err != nil || r.NtlmMessage == "" {
 		h.removeContext(message.Session)
 	}
 
